@@ -410,7 +410,45 @@ func c15GenText(rng *rand.Rand, probe, class string, minLines int) *c15Text {
 	case "lone-cr":
 		insert(c15RuleLine(rng) + "\r" + c15RuleLine(rng))
 	case "ctrl-in-rule":
-		insert("||bad" + []string{"\x00", "\x01", "\x1b", "\x7f", "\v", "\f", "\x08"}[rng.Intn(7)] + "byte.example.org^")
+		// One control character other than tab, LF, CR in an otherwise valid
+		// rule line: binary content.  Every such byte is drawn (VT and FF more
+		// often: they are white space to some and binary to the parser), inside
+		// the line, as its first or as its last byte, in the first line, a
+		// middle line or the last line of the text.
+		var c byte
+		if rng.Intn(5) < 2 {
+			c = []byte{0x0b, 0x0c}[rng.Intn(2)]
+		} else {
+			for c = byte(rng.Intn(32)); c == '\t' || c == '\n' || c == '\r'; c = byte(rng.Intn(32)) {
+			}
+		}
+		if rng.Intn(16) == 0 {
+			c = 0x7f
+		}
+		l := "||bad.byte.example.org^"
+		pos := []string{"inside", "inside", "start", "end"}[rng.Intn(4)]
+		switch pos {
+		case "inside":
+			at := 1 + rng.Intn(len(l)-1)
+			l = l[:at] + string([]byte{c}) + l[at:]
+		case "start":
+			l = string([]byte{c}) + l
+		default:
+			l += string([]byte{c})
+		}
+		if (c == 0x0b || c == 0x0c) && pos != "inside" {
+			// Trimmed as white space by some readings: not fixed.
+			class = "ctrl-vt-ff-at-line-edge"
+		}
+		switch rng.Intn(3) {
+		case 0:
+			lines = append([]string{l}, lines...)
+			probeIdx++
+		case 1:
+			insert(l)
+		default:
+			lines = append(lines, l)
+		}
 	case "ctrl-in-comment":
 		insert("# comment with \x00\x01\x02 bytes " + c15RuleLine(rng))
 	case "html-after-rule":
